@@ -444,6 +444,10 @@ func init() {
 			w.Cfg.MgmtEvents = 1
 			w.Decoys = r.Range(0, 2)
 			genC10Schedule(r.Sub("sched", 0), w)
+			if r.Bool(0.12) {
+				// a project without tillage: no events and no tillage file at all
+				w.Till, w.NoTilFile = nil, true
+			}
 			return &Scenario{Prop: "C10", Kind: "single", World: w, Bug: genBug(r.Sub("bug", 0), false)}
 		},
 		Exec: func(sc *Scenario, env *Env) *Result {
